@@ -42,7 +42,8 @@ def gen(name, num, depth, **consts):
 
 # ---- bounded instances (sizes measured; see evidence/*.json "design") ----------------------
 MC_BATCH_Q = mc("MC_Batch_q", Templates={"B1"}, Prices={1, 2}, Amts={1, 3}, MaxBids=2, Tmax=7)
-MC_FIXED_Q = mc("MC_Fixed_q", Templates={"F1"}, Amts={1, 2, 4}, MaxBids=3, Tmax=7, CapSet={3, 5})
+MC_FIXED_Q = mc("MC_Fixed_q", Templates={"F1"}, Amts={1, 2, 4}, MaxBids=2, Tmax=7, CapSet={3, 5})
+MC_FIXED_T = mc("MC_Fixed_t", Templates={"F1"}, Amts={1, 2, 4}, MaxBids=3, Tmax=7, CapSet={3, 5}, timeout=1800)
 MC_LIFE_Q = mc("MC_Life_q", D=4, Templates={"Fl", "Bl"}, MaxAuc=1, Amts={2}, Prices={4}, MaxBids=1, Tmax=10, Jump=3, CapSet={5},
                CreateUntil=2, StartOffsets={0, 1}, WithInvalid=False)
 MC_LIFE2_Q = mc("MC_Life2_q", D=4, Templates={"Fl", "Bl"}, MaxAuc=2, Amts={2}, Prices={4}, MaxBids=0, Tmax=9, Jump=3, CapSet={5},
@@ -60,10 +61,14 @@ TC_EXT_Q = mc("TC_Ext_q", Templates={"B5"}, Prices={1, 2}, Amts={2}, MaxBids=3, 
               CreateUntil=0, Dur=2, MaxMods=0, Bidders={"u2"})
 TC_FIXED_Q = mc("TC_Fixed_q", Templates={"F1"}, Amts={1, 2, 4}, MaxBids=2, Tmax=7, Jump=2, CapSet={3, 5}, StartOffsets={0, 1}, CreateUntil=1)
 TC_BATCH_Q = mc("TC_Batch_q", Templates={"B1"}, Prices={1, 2}, Amts={1, 3}, MaxBids=2, Tmax=8, Jump=2, StartOffsets={0, 1}, CreateUntil=1)
+TC_CANCEL_Q = mc("TC_Cancel_q", Templates={"F0", "B0"}, MaxAuc=1, Amts={1}, Prices={2}, MaxBids=1, Tmax=3, Jump=2, CapSet={5}, MaxDon=2,
+                 StartOffsets={1, 2}, CreateUntil=1, WithInvalid=False)
+TC_MULTI_Q = mc("TC_Multi_q", Templates={"F0"}, MaxAuc=2, Amts={2}, Prices={2}, MaxBids=2, Tmax=3, Jump=2, CapSet={3, 5}, StartOffsets={0},
+                CreateUntil=1, Bidders={"u2"})
 GEN_GENERAL = [
-    gen("sysA", 150, 40, Templates={"B0", "B1", "B2", "F0", "F1"}, MaxAuc=2, Prices={1, 2, 3}, Amts={1, 2, 3, 5, 8},
+    gen("sysA", 110, 40, Templates={"B0", "B1", "B2", "F0", "F1"}, MaxAuc=2, Prices={1, 2, 3}, Amts={1, 2, 3, 5, 8},
         CapSet={3, 5, 10}, MaxBids=6, MaxDon=2, Tmax=24, Jump=3, CreateUntil=6, StartOffsets={0, 1, 2}, Dur=3, WithInvalid=True, WithGenesis=False),
-    gen("sysB", 150, 40, D=4, Templates={"B0", "B1", "B2", "Bl", "F1", "Fl"}, MaxAuc=2, Prices={2, 3, 4, 5, 6},
+    gen("sysB", 110, 40, D=4, Templates={"B0", "B1", "B2", "Bl", "F1", "Fl"}, MaxAuc=2, Prices={2, 3, 4, 5, 6},
         Amts={1, 2, 3, 4, 7}, CapSet={2, 6, 10}, MaxBids=6, MaxDon=1, Tmax=24, Jump=3, CreateUntil=6, StartOffsets={0, 1, 2}, Dur=3, UserSeq=U4, Bidders={"u2", "u3", "u4"},
         WithInvalid=True, WithGenesis=False),
 ]
@@ -91,9 +96,9 @@ def scale(gens, f):
 
 PLANS = {
     "C01": dict(mc=[MC_BATCH_Q, MC_FIXED_Q], gen=GEN_GENERAL),
-    "C02": dict(mc=[MC_BATCH_Q, MC_FIXED_Q], gen=GEN_GENERAL),
+    "C02": dict(mc=[MC_BATCH_Q, MC_FIXED_Q], gen=GEN_GENERAL, tc=[TC_EXT_Q, TC_CANCEL_Q], tc_max=2500),
     "C03": dict(mc=[MC_BATCH_Q], gen=GEN_GENERAL),
-    "C04": dict(mc=[MC_BATCH_Q, MC_FIXED_Q], gen=GEN_GENERAL),
+    "C04": dict(mc=[MC_BATCH_Q, MC_FIXED_Q], gen=GEN_GENERAL, tc=[TC_BATCH_Q, TC_FIXED_Q], tc_max=2000),
     "C05": dict(mc=[MC_BATCH_Q, MC_FIXED_Q], gen=GEN_GENERAL),
     "C06": dict(mc=[MC_FIXED_Q], gen=GEN_GENERAL),
     "C07": dict(mc=[MC_LIFE_Q, MC_LIFE2_Q],
@@ -102,13 +107,13 @@ PLANS = {
     "C09": dict(mc=[MC_LIFE_Q, MC_LIFE2_Q], gen=GEN_GENERAL),
     "C10": dict(mc=[MC_INVALID1_Q, MC_INVALIDF_Q], gen=GEN_GENERAL),
     "C11": dict(mc=[MC_BATCH_Q], gen=GEN_GENERAL),
-    "C12": dict(mc=[MC_INVALID1_Q, MC_INVALIDF_Q], gen=GEN_GENERAL),
-    "C13": dict(mc=[MC_BATCH_Q], gen=GEN_GENERAL, tc=[TC_EXT_Q], tc_max=6000),
+    "C12": dict(mc=[MC_INVALID1_Q, MC_INVALIDF_Q], gen=GEN_GENERAL, tc=[TC_CANCEL_Q], tc_max=2500),
+    "C13": dict(mc=[MC_BATCH_Q], gen=GEN_GENERAL, tc=[TC_EXT_Q], tc_max=2500),
     "C15": dict(mc=[MC_GENESIS_Q], gen=[dict(g, consts=dict(g["consts"], WithGenesis=True, KindBag=("<-", "BagGenesis"),
                                                  Templates=set(g["consts"]["Templates"]) | {"Bx"})) for g in GEN_GENERAL]),
     "C16": dict(mc=[MC_BATCH_Q, MC_FIXED_Q], gen=GEN_GENERAL),
     "C18": dict(mc=[MC_INVALID1_Q, MC_INVALIDF_Q], gen=GEN_GENERAL),
-    "C19": dict(mc=[MC_MULTI_Q], gen=GEN_GENERAL),
+    "C19": dict(mc=[MC_MULTI_Q], gen=GEN_GENERAL, tc=[TC_MULTI_Q], tc_max=2500),
 }
 
 
@@ -135,12 +140,22 @@ PLANS["C14"] = dict(mc=[], gen=GEN_MANY + scale(GEN_GENERAL, 0.3), check="C14", 
 PLANS["ALL"] = dict(mc=[], gen=GEN_GENERAL, check="ALL")
 
 
+THOROUGH_MC = {"MC_Fixed_q": MC_FIXED_T}
+LEMMAS = {"C01": ["L1", "L2", "L3", "L4", "L7"], "C03": ["L5"], "C04": ["L1", "L2", "L3", "L6"], "C05": ["L3"],
+          "C09": ["L7"], "C11": ["L4"], "C13": ["L9"]}
+
+
 def plan(prop, tier):
     if prop not in PLANS:
         raise SystemExit("no plan for " + prop)
     p = dict(PLANS[prop])
+    if prop in LEMMAS:
+        p["lemmas"] = LEMMAS[prop]
     if tier == "thorough":
-        p["gen"] = scale(p.get("gen", []), 8)
+        p["gen"] = scale(p.get("gen", []), 10)
+        p["tc_max"] = 10 ** 7
+        p["mc"] = [THOROUGH_MC.get(m["name"], m) for m in p.get("mc", [])]
+        p["tc"] = [THOROUGH_MC.get(m["name"], m) for m in p.get("tc", [])]
         if "replicas" in p:
             p["replicas"] = 12
     return p
